@@ -13,6 +13,7 @@ import (
 	"runtime"
 	"sort"
 	"strconv"
+	"strings"
 	"sync"
 	"time"
 )
@@ -40,10 +41,12 @@ type recorder struct {
 	items []item
 	cur   map[any]int // ammo object -> item number (acquisition order)
 	ctl   *ctl
+	// fine-grained mode (instrumented worker): instances that are inside a schedule call of the logging wrapper
+	inCall map[int]bool
 }
 
 func newRecorder() *recorder {
-	return &recorder{tids: map[int64]int{}, lids: map[int]int{}, cur: map[any]int{}}
+	return &recorder{tids: map[int64]int{}, lids: map[int]int{}, cur: map[any]int{}, inCall: map[int]bool{}}
 }
 
 // tid: instances are numbered in the order of their first operation. Call with mu held.
@@ -151,6 +154,8 @@ type ctl struct {
 	last    int
 	br      []byte // per decision: number of options, choice (base 36)
 	partial int    // decisions taken while a live instance was not parked
+	fine    bool             // park also at the scheduling points inside the schedule's Next / Left
+	pending map[int][]string // fine: the shared-state accesses the parked instance performs when it goes on
 }
 
 // preempt: at decision number step, switch to the k-th OTHER parked instance.
@@ -179,6 +184,47 @@ func (r *recorder) gate() {
 	}
 	ch := make(chan struct{})
 	c.parked[t] = ch
+	delete(c.resting, t)
+	r.mu.Unlock()
+	c.poke()
+	select {
+	case <-ch:
+	case <-c.stop:
+	}
+}
+
+// isFine: scheduling points inside the schedule's operations are in use (the operation itself is then NOT performed
+// under the recorder's mutex: the controller lets one instance run at a time).
+func (r *recorder) isFine() bool { return r.ctl != nil && r.ctl.fine }
+
+// enter / leave: the calling instance is inside a schedule call of the logging wrapper.
+func (r *recorder) enter() {
+	r.mu.Lock()
+	r.inCall[r.tid()] = true
+	r.mu.Unlock()
+}
+
+// yield: a scheduling point inside the schedule's own code (instrumented worker, see instr.go). The instance parks
+// only before a statement that touches the schedule's shared state; the access is logged when it is let go.
+func (r *recorder) yield(point string) {
+	c := r.ctl
+	if c == nil || !c.fine {
+		return
+	}
+	bar := strings.IndexByte(point, '|')
+	if bar < 0 || bar == len(point)-1 {
+		return // a statement without shared access: no scheduling point needed
+	}
+	g := goid()
+	r.mu.Lock()
+	t, ok := r.tids[g]
+	if !ok || !r.inCall[t] || c.stopped {
+		r.mu.Unlock()
+		return
+	}
+	ch := make(chan struct{})
+	c.parked[t] = ch
+	c.pending[t] = strings.Split(point[bar+1:], ",")
 	delete(c.resting, t)
 	r.mu.Unlock()
 	c.poke()
@@ -301,6 +347,12 @@ func (c *ctl) loop() {
 		ch := c.parked[t]
 		delete(c.parked, t)
 		c.last = t
+		if acc, ok := c.pending[t]; ok {
+			for _, a := range acc {
+				r.logf("t%d:%s", r.lid(t), a)
+			}
+			delete(c.pending, t)
+		}
 		if len(c.br) < 4000 {
 			c.br = append(c.br, b36[len(opts)%36], b36[k%36])
 		}
